@@ -1,10 +1,14 @@
 #!/usr/bin/env python3
 """Runs the repository's suite (guard off) and checks that every test of BASELINE.json stable_pass passes."""
-import json, os, subprocess, sys
-env = dict(os.environ, GOFLAGS="-mod=mod", GOPROXY="off", GOSUMDB="off", GOTOOLCHAIN="local")
+import json, os, shutil, subprocess, sys, tempfile
+# the suite leaves temporary repositories behind: give it a private TMPDIR and remove that afterwards
+tmp = tempfile.mkdtemp(prefix="baseline-tmp-", dir=os.path.join(os.path.dirname(os.path.dirname(os.path.abspath(__file__))), "build")
+                       if os.path.isdir(os.path.join(os.path.dirname(os.path.dirname(os.path.abspath(__file__))), "build")) else None)
+env = dict(os.environ, GOFLAGS="-mod=mod", GOPROXY="off", GOSUMDB="off", GOTOOLCHAIN="local", TMPDIR=tmp)
 repo = os.environ.get("VERIF_REPO", "/repo")
 p = subprocess.run(["go", "test", "-mod=mod", "-json", "-vet=off", "-count=1", "-timeout", "25m", "./..."], cwd=repo, env=env,
                    stdout=subprocess.PIPE, stderr=subprocess.PIPE)
+shutil.rmtree(tmp, ignore_errors=True)
 status = {}
 for line in p.stdout.decode(errors="replace").splitlines():
     try:
